@@ -154,6 +154,32 @@ def kani_part(prop, tier, only, scratch_tag):
     return obligations, violations, undecided, info
 
 
+def verus_replay(prop, v, scratch):
+    """Verus gives no model.  Write the replay file (failed obligation + verifier output); if a replay
+    probe is registered for the clause, run it on the real code (repo toolchain) to find a failing input."""
+    from . import probes
+    reg = _registry()
+    kf = reg.known_finding_for(prop, v["ob"]["name"])
+    if kf is not None:
+        v["known"] = kf
+        return
+    os.makedirs(REPLAYS, exist_ok=True)
+    rp = os.path.join(REPLAYS, "%s-%s.txt" % (prop, re.sub(r"\W+", "_", v["ob"]["name"])[:80]))
+    found, pout = probes.run_probe(prop, v["ob"]["name"], scratch)
+    with open(rp, "w") as f:
+        f.write("replay for property %s\nfailed obligation: %s\nclause: %s\nfunction under contract: %s\nengine: %s\n\n"
+                % (prop, v["ob"]["name"], v["ob"].get("text", ""), v["ob"].get("fn"), v["ob"]["engine"]))
+        f.write("---- verifier output ----\n%s\n" % v.get("verus_out", v.get("desc", "")))
+        if found is None:
+            f.write("\n---- replay probe ----\nno probe registered / probe did not run: no-failing-input-found\n%s\n" % (pout or ""))
+        elif found:
+            f.write("\n---- replay probe: failing input found on the real code ----\n%s\n" % pout)
+        else:
+            f.write("\n---- replay probe ran on its grid of concrete inputs: no-failing-input-found ----\n%s\n" % pout)
+    v["replay"] = rp
+    v["reproduced"] = True if found else None
+
+
 # ------------------------------------------------------------------------------------------
 def check(prop, tier, seed, only=None):
     t0 = time.time()
